@@ -22,6 +22,8 @@ Line protocol (tokens: text = hex of UTF-8, `-` empty, `~` None; typed values `i
   cact <i> <name> <in> <out> ; cend <i>       the client's service model (raw texts + typed public properties)
   call <i> <action> <args dict> <script R:<dict>|E:<code|N>>  then  cobs <seen dict|!> <ok:<dict>|ae:c:s|re:s|ce:Exc>
   raw <i> <soapaction|~> <xml rose|X> <script>                then  robs <seen> <resp:status:fault:rets|unh:Exc>
+  xcheck ok|diff:<hex>                        sampled cases: the same recipe served by aiohttp's TestServer on 127.0.0.1 and
+                                              driven by the real AiohttpRequester gave the same observations
 """
 from __future__ import annotations
 
@@ -449,7 +451,7 @@ def client_result_tok(fn_result: Any, exc: Optional[BaseException]) -> str:
     return f"ce:{exc_token(exc).replace('RAW:', '')}"
 
 
-async def run_case(recipe: Dict[str, Any]) -> Tuple[List[str], List[str], bool]:
+async def run_case(recipe: Dict[str, Any], loopback: bool = False) -> Tuple[List[str], List[str], bool]:
     import async_upnp_client.server as srv
     from async_upnp_client.client_factory import UpnpFactory
 
@@ -502,23 +504,58 @@ async def run_case(recipe: Dict[str, Any]) -> Tuple[List[str], List[str], bool]:
         return _with_facts(w, lines), sorted(tags | {"built:fail"}), False
     lines.append("built ok")
 
+    # -- transport: the real handlers on mocked requests, or (cross-check) a real HTTP server on loopback
+    tserver = None
+    base = BASE
+    if loopback:
+        import logging
+        from aiohttp.test_utils import TestServer
+        logging.getLogger("aiohttp.server").setLevel(logging.CRITICAL)  # escaping exceptions are expected observations
+        logging.getLogger("aiohttp.web").setLevel(logging.CRITICAL)
+        tserver = TestServer(app, host="127.0.0.1")
+        await tserver.start_server()
+        base = f"http://127.0.0.1:{tserver.port}"
+
+    async def xfer(method: str, path: str, headers: Dict[str, str], body: bytes):
+        if tserver is None:
+            return await dispatch(app, method, path, headers, body)
+        from aiohttp import ClientSession
+        async with ClientSession() as sess:
+            async with sess.request(method, base + path, headers=headers, data=body) as resp:
+                return resp.status, await resp.text(), None
+
+    try:
+        return await _run_ops(recipe, w, lines, tags, svcs, app, xfer, base, loopback)
+    finally:
+        if tserver is not None:
+            await tserver.close()
+
+
+async def _run_ops(recipe, w, lines, tags, svcs, app, xfer, base, loopback):
+    defn = recipe["defn"]
+    from async_upnp_client.client_factory import UpnpFactory
+
     # -- served documents
-    st, text, exc = await dispatch(app, "GET", "/device.xml", {}, b"")
+    st, text, exc = await xfer("GET", "/device.xml", {}, b"")
     if exc is not None or st != 200:
         lines.append(f"sdoc !{st}:{exc_token(exc) if exc else ''}")
     else:
         lines.append(f"sdoc {xml_rose(ET.fromstring(text))}")
     for i, s in enumerate(svcs):
-        st, text, exc = await dispatch(app, "GET", s["scpd"], {}, b"")
+        st, text, exc = await xfer("GET", s["scpd"], {}, b"")
         if exc is not None or st != 200:
             lines.append(f"sscpd {i} !{st}:{exc_token(exc) if exc else ''}")
         else:
             lines.append(f"sscpd {i} {xml_rose(ET.fromstring(text))}")
 
     # -- the library's own client
-    requester = make_requester(app)
+    if loopback:
+        from async_upnp_client.aiohttp import AiohttpRequester
+        requester = AiohttpRequester()
+    else:
+        requester = make_requester(app)
     try:
-        cdev = await UpnpFactory(requester).async_create_device(BASE + "/device.xml")
+        cdev = await UpnpFactory(requester).async_create_device(base + "/device.xml")
     except Exception as e:  # noqa: BLE001
         lines.append(f"cdevres fail:{exc_token(e).replace('RAW:', '')}")
         return _with_facts(w, lines), sorted(tags | {"client:fail"}), True
@@ -598,7 +635,7 @@ async def run_case(recipe: Dict[str, Any]) -> Tuple[List[str], List[str], bool]:
             headers = {"Content-Type": 'text/xml; charset="utf-8"'}
             if sa is not None:
                 headers["SOAPAction"] = sa
-            st, text, exc = await dispatch(app, "POST", s["ctl"], headers, btext.encode("utf-8"))
+            st, text, exc = await xfer("POST", s["ctl"], headers, btext.encode("utf-8"))
             if exc is not None:
                 obs = f"unh:{exc_token(exc).replace('RAW:', '')}"
             else:
@@ -642,6 +679,22 @@ def run_recipe(ctx: Ctx, recipe: Dict[str, Any], cid: str) -> Case:
     try:
         asyncio.set_event_loop(loop)
         lines, tags, nontrivial = loop.run_until_complete(run_case(recipe))
+        if recipe.get("xcheck"):
+            # cross-check of the harness' mocked-request path against a real HTTP server on loopback driven
+            # by the real AiohttpRequester: identical observations, except that an escaping exception is seen
+            # as aiohttp's bare 500
+            import re as _re
+            try:
+                l2, _, _ = loop.run_until_complete(run_case(recipe, loopback=True))
+                want = [_re.sub(r"unh:\w+", "resp:500:~:!", x) for x in lines]
+                diff = next((f"{a[:120]}<>{b[:120]}" for a, b in zip(want, l2) if a != b), None)
+                if diff is None and len(want) != len(l2):
+                    diff = f"length {len(want)}<>{len(l2)}"
+                res = "ok" if diff is None else "diff:" + tok_str(diff)
+            except Exception as e:  # noqa: BLE001
+                res = "diff:" + tok_str(f"loopback run failed: {type(e).__name__}: {e}"[:200])
+            lines = lines + [f"xcheck {res}"]
+            tags = sorted(set(tags) | {"xcheck:" + res.split(":")[0]})
         pending = [t for t in asyncio.all_tasks(loop) if not t.done()]
         for t in pending:
             t.cancel()
@@ -1031,13 +1084,16 @@ def generate(ctx: Ctx) -> List[Case]:
     cases: List[Case] = []
     i = 0
     for rec in CORPUS:
-        cases.append(run_recipe(ctx, rec, f"corpus{i}"))
+        cases.append(run_recipe(ctx, {**rec, "xcheck": True}, f"corpus{i}"))
         i += 1
     n = 3000 if ctx.thorough else 330
     for _ in range(n):
         defn = g_defn(rng)
         ops = g_ops(rng, defn, 2 if not ctx.thorough else 3, 4 if not ctx.thorough else 6)
-        cases.append(run_recipe(ctx, {"defn": defn, "ops": ops}, f"r{i}"))
+        rec = {"defn": defn, "ops": ops}
+        if i % (20 if ctx.thorough else 40) == 0:
+            rec["xcheck"] = True
+        cases.append(run_recipe(ctx, rec, f"r{i}"))
         i += 1
     return cases
 
